@@ -82,7 +82,10 @@ func genBuffer(t *rapid.T) (b []byte, dmgAt int, dmgKind string) {
 		}
 		sp := ld[rapid.IntRange(0, len(ld)-1).Draw(t, "len_which")]
 		cur := uint64(sp.PayEnd - sp.PayStart)
-		opts := []uint64{cur + 1, cur + 4, uint64(len(b)), uint64(len(b)) * 4, 1<<31 - 1, 1 << 31, 1<<32 + 5, 1 << 62, 1 << 63, math.MaxUint64, cur / 2}
+		opts := []uint64{cur + 1, cur + 4, uint64(len(b)), uint64(len(b)) * 4, 1<<31 - 1, 1 << 31, 1<<32 + 5, 1 << 62, 1 << 63, math.MaxUint64, cur / 2,
+			// the edges where "offset + length" or a narrowing conversion wraps, in multiples of the element sizes too
+			math.MaxInt64, math.MaxInt64 - 3, math.MaxInt64 - 7, math.MaxInt64 - 15, math.MaxInt64 - uint64(len(b)), 1<<31 - 4, 1<<31 - 8, 1<<32 - 1, 1<<32 - 8, 1<<32 + cur,
+			math.MaxUint64 - 1, math.MaxUint64 - 7, 1<<64 - 1<<31}
 		nl := opts[rapid.IntRange(0, len(opts)-1).Draw(t, "len_to")]
 		kind := wirex.FInflate
 		if nl < cur {
